@@ -127,7 +127,10 @@ class Image:
         for r in self.mm.requests:
             res = r.get("result")
             if res and not (res.get("kind") == "reference" or (res.get("kind") == "base" and res.get("name") == "null")):
-                out[self.mm.request_stem(r) + "Result"] = r
+                name = self.mm.request_stem(r) + "Result"
+                if name in self.mm.aliases or name in self.mm.structures or name in self.mm.enums:
+                    continue   # the metamodel's own definition of that name wins (first definition is kept)
+                out[name] = r
         return out
 
     def allowed_names(self) -> set:
